@@ -347,9 +347,25 @@ def programs(tier: str, family: str = "c16") -> List[Any]:
     return out
 
 
-def build(spec: Any) -> Prog:
+ROOTS = {
+    "ROOT_linear": lambda: nn.Linear(SIZES["d0"], SIZES["d1"]),
+    "ROOT_sequential": lambda: nn.Sequential(nn.Linear(SIZES["d0"], SIZES["d1"]), nn.GELU(), nn.Linear(SIZES["d1"], SIZES["d0"], bias=False)),
+    "ROOT_layernorm_seq": lambda: nn.Sequential(nn.LayerNorm(SIZES["d0"]), nn.Linear(SIZES["d0"], SIZES["d2"])),
+}
+
+
+def root_specs() -> List[Any]:
+    """programs whose ROOT module is itself a torch.nn layer (no user-defined container around it)"""
+    return [(((k, ()),), None, False) for k in ROOTS]
+
+
+def build(spec: Any) -> Any:
     segs, head, emb = spec
     torch.manual_seed(0)
+    if len(segs) == 1 and segs[0][0] in ROOTS:
+        m = ROOTS[segs[0][0]]()
+        m.example_inputs = lambda seed=0: [torch.randn(SIZES["B"], SIZES["S"], SIZES["d0"], generator=torch.Generator().manual_seed(seed))]
+        return m
     return Prog([Seg(k, tuple(b)) for k, b in segs], head, emb)
 
 
